@@ -35,6 +35,7 @@ package morass
 //@   requires forall i int :: 0 <= i && i < len(m.files) ==> m.files[i] != nil && m.files[i].file != nil
 //@   ensures [reset]    result == nil ==> m.pos == 0 && m.len == 0 && len(m.files) == 0 && m._err == nil
 //@   ensures [not-fast] result == nil ==> !m.fast
+//@   ensures [empty-chunk] result == nil ==> len(m.chunk) == 0
 //@   ensures [removed]  result == nil ==> removeCount(0) == old(removeCount(0)) + old(len(m.files))
 //@   assigns m._err, m.files, m.pos, m.len, m.fast, m.chunk, removeCount(0), fresh
 //@   loop 1 invariant 0 <= idx && idx <= len(m.files) && m.files == old(m.files) && removeCount(0) == old(removeCount(0)) + idx
@@ -51,6 +52,9 @@ package morass
 //@       && (forall i int :: 0 <= i && i < len(m.files) ==> m.files[i] != nil && m.files[i].file != nil && m.files[i].decoder != nil)
 //@       && (forall i int :: 0 <= i && i < len(m.chunk) ==> m.chunk[i] != nil)
 
+//@ spec wfNoChunk(m *Morass) bool = m != nil && m.chunkSize >= 0 && m.typ != nil && m.pos >= 0 && m.len >= 0
+//@       && (forall i int :: 0 <= i && i < len(m.files) ==> m.files[i] != nil && m.files[i].file != nil && m.files[i].decoder != nil)
+
 // Less is an observer of the two values.
 //@ func (LessInterface).Less
 //@   pure
@@ -62,4 +66,41 @@ package morass
 //@   requires wf(m) && e != nil
 //@   ensures [fast-next]  old(m.fast) && result == nil ==> old(m.chunk) != nil && 0 <= old(m.pos) && old(m.pos) < len(old(m.chunk)) && m.pos == old(m.pos) + 1
 //@   ensures [fast-eof]   old(m.fast) && old(m.chunk) != nil && 0 <= old(m.pos) && old(m.pos) < len(old(m.chunk)) ==> result != io.EOF
+//@   ensures [failure]    ioFailures(0) > old(ioFailures(0)) ==> result != nil
 //@   ensures [autoclean]  result == io.EOF && old(m.AutoClean) ==> removeAllCount(0) > old(removeAllCount(0)) && lastRemoveAll(0) == old(m.dir)
+
+// What travels through the sorter's channels: recycled chunks are empty, chunks to be written hold non-nil values.
+//@ chaninv Morass.pool v :: len(v) == 0
+//@ chaninv Morass.writable v :: forall i int :: 0 <= i && i < len(v) ==> v[i] != nil
+
+// write: a failed temporary-file creation, encode or sync leaves a non-nil error in the sorter.
+//@ func (*Morass).write
+//@   property C13
+//@   requires wf(m)
+//@   ensures [failure-kept] ioFailures(0) > old(ioFailures(0)) ==> m._err != nil
+//@   ensures [monotone]     ioFailures(0) >= old(ioFailures(0))
+//@   ensures [stable-files] forall i int :: 0 <= i && i < len(m.files) ==> m.files[i] != nil && m.files[i].file != nil && m.files[i].decoder != nil
+//@   ensures [wf] wfNoChunk(m) && m.pos == old(m.pos) && m.len == old(m.len) && m.chunkSize == old(m.chunkSize) && m.fast == old(m.fast) && m.chunk == old(m.chunk)
+//@   assigns m.files, m._err, ioFailures(0), m.files[*], elems(LessInterface), fresh
+//@   loop 1 invariant 0 <= idx && idx <= len(writing) && m != nil && ioFailures(0) == old(ioFailures(0)) && enc != nil
+//@   loop 1 invariant m.pos == old(m.pos) && m.len == old(m.len) && m.chunkSize == old(m.chunkSize) && m.typ == old(m.typ) && m.fast == old(m.fast) && m.chunk == old(m.chunk)
+
+// Push: counts, and a pending error is reported instead of accepting the value.
+//@ func (*Morass).Push
+//@   property C11 C13
+//@   requires wf(m) && m.pos >= 0
+//@   ensures [count]      result == nil ==> m.len == old(m.len) + 1 && m.pos == old(m.pos) + 1
+//@   ensures [error-seen] old(m._err) != nil ==> result != nil
+//@   ensures [wf]         wf(m)
+
+// Finalise: resets the cursor; an in-memory cycle is sorted by Less; a pending or new I/O failure is reported.
+//@ func (*Morass).Finalise
+//@   property C11 C13
+//@   requires wf(m)
+//@   ensures [error-seen] old(m._err) != nil ==> result != nil
+//@   ensures [cursor]     result == nil && old(m.chunk) != nil ==> m.pos == 0
+//@   ensures [sorted]     result == nil && old(m.chunk) != nil && old(m.pos) < cap(old(m.chunk)) ==> m.fast && m.chunk == old(m.chunk)
+//@                        && forall i int, j int :: 0 <= i && i < j && j < len(m.chunk) ==> !lessOf(m.chunk[j], m.chunk[i])
+//@   ensures [len]        m.len == old(m.len)
+//@   ensures [failure]    ioFailures(0) > old(ioFailures(0)) ==> result != nil
+//@   loop 1 invariant 0 <= idx && wfNoChunk(m) && m.len == old(m.len) && m.pos == 0 && !m.fast && ioFailures(0) == old(ioFailures(0))
